@@ -59,6 +59,12 @@ CHECKS["C20"] = dict(engine="tlc+vdrive",
    text="TLC checks FlushComplete/OnceEach/OrderPerGoroutine and flush termination exhaustively for 2 goroutines x 2 entries (and confirms that the loop without the drain violates FlushComplete, so the property is not vacuous). The harness holds the real flusher between its two selects with a blocking hook, logs entries, requests the flush and releases it; together with free-running multi-goroutine scenarios every recorded event trace must be a behaviour of the spec with the invariants holding at every step.",
    design_ref="5/C20", note="Trusted: Go select semantics as modelled; the recorder's lock order; hook rogger.flush.between (self-tested every run). Flush timeout raised to 10 s so that only the handshake ends FlushLogger.")
 
+CHECKS["C07"] = dict(engine="tlc+vdrive",
+   technique="TLA+ spec Framing.tla (stream/buffer/scan-loop positions model) model-checked by TLC over every partition of small streams; trace validation (Trace_Framing) of the real server and client receive loops fed with scripted streams in scripted chunks, observed through read/packet/parse-error hooks",
+   category="model_checking",
+   text="TLC explores every split of every stream of up to 3 packets (lengths 0..7, maxLen 6, reads up to 5 bytes) and 4-packet streams around maxLen with coalescing reads: alignment (nothing lost/duplicated/carried), only legal packets handed out, a complete packet is never left waiting, illegal length closes, all legal packets eventually delivered. The real tcp server recv loop and the real client recv loop (real protocol.TarsRequest) are then driven with streams around the 4-byte minimum, the 4096-byte read buffer and maximum lengths 16..10 MB, cut into single bytes / inside headers / all at once / aligned / random; every read size and every packet handed over is recorded by hooks and TLC checks the trace against the spec; an illegal length must close that connection only (a second connection is probed).",
+   design_ref="5/C07", note="Trusted: hooks tcp.recv.read/tcp.handleConn/client.recv.read/client.recv.pkg/parseError (self-tested each run); packet identity via uniform payload bytes; 10 MB packets are not physically sent (maximum lengths up to 100000 are, 1 MB packets in the thorough tier).")
+
 PENDING = {}
 
 def main():
